@@ -2730,7 +2730,9 @@ class DtsAccessor:
         if ci_avg_x_flag1:
             out["tmpw" + "_avgx1"] = out["tmpw" + "_avgsec"].mean(dim=x_dim2)
 
-            out["tmpw" + "_mc_avgx1_var"] = mcparams["tmpw" + "_mc_set"].var(dim=x_dim2)
+            out["tmpw" + "_mc_avgx1_var"] = mcparams["tmpw" + "_mc_set"].var(
+                dim=["mc", x_dim2]
+            )
 
             if conf_ints:
                 new_chunks_weighted = ((len(conf_ints),),) + (memchunk[2],)
